@@ -110,6 +110,15 @@ impl Ctx {
         });
     }
     pub fn violation(&mut self, sig: &str, detail: String) {
+        // inputs that use the private date-time marker as an ordinary key are a finding of their
+        // own (DESIGN.md section 5, D29): keep their signatures apart from everything else
+        let tagged;
+        let sig = if self.cur_input.as_deref().map_or(false, |i| i.contains(crate::docs::DATETIME_MARKER)) {
+            tagged = format!("{sig}:private-datetime-marker-key");
+            tagged.as_str()
+        } else {
+            sig
+        };
         self.add(&format!("violations/{sig}"), 1);
         let n = self.sig_seen.entry(sig.to_string()).or_insert(0);
         *n += 1;
